@@ -454,7 +454,7 @@ func runC09(ctx *Ctx) {
 	}
 	ctx.SetExhaustive(true)
 	ctx.Note("the (source x field x operation) matrix is enumerated completely for every type; the rapid arm below samples populated parents")
-	n := ctx.N(150, 3000)
+	n := ctx.N(1500, 10000)
 	for _, t := range ctx.types() {
 		t := t
 		hasMsg := false
